@@ -161,7 +161,9 @@ def run(ctx: Ctx) -> int:
 	stmt_violations, stmt_cov = c01_stmt.run_statements(ctx)
 	from harness.checks import c01_cont
 	cont_violations, cont_cov = c01_cont.run_containers(ctx)
-	violations = list(stmt_violations) + list(cont_violations)
+	from harness.checks import c01_obj
+	obj_violations, obj_cov = c01_obj.run_classes(ctx)
+	violations = list(stmt_violations) + list(cont_violations) + list(obj_violations)
 	groups: dict[str, list] = {}
 	for f in failures:
 		key = f'{f["clause"]}:grouping:{grouping_family(f)}' if f['clause'] == 'SameValue' else f'{f["clause"]}:{grouping_family(f)}'
@@ -170,16 +172,17 @@ def run(ctx: Ctx) -> int:
 		s = min(fs, key=lambda f: len(f['text']))
 		violations.append(Violation(key, s['clause'], f'{s["detail"]} ({len(fs)} expressions)', {'text': s['text'], 'all': sorted(f['text'] for f in fs)[:40]}))
 	coverage = {
-		'programs': len(cases) + stmt_cov.get('statement_programs', 0) + cont_cov.get('container_programs', 0),
-		'disagreements_checked': nres + stmt_cov.get('statement_results', 0) + cont_cov.get('container_results', 0),
+		'programs': len(cases) + stmt_cov.get('statement_programs', 0) + cont_cov.get('container_programs', 0) + obj_cov.get('class_programs', 0),
+		'disagreements_checked': nres + stmt_cov.get('statement_results', 0) + cont_cov.get('container_results', 0) + obj_cov.get('class_results', 0),
 		'samples': [{'source': cases[310]['text'], 'expected': [v['v'] for v in cases[310]['vals']]}],
 		'expression_functions': len(cases),
 		'argument_vectors': len(envs),
 		'results_compared': nres,
-		'constructs_exercised': ['int/bool operators: + - * % | ^ & << >> == != < > <= >= and or not unary - + ~ ternary, all association shapes'] + stmt_cov.get('constructs', []) + cont_cov.get('constructs', []),
-		'constructs_not_covered': ['classes, inheritance, properties, classmethods, enums', 'lambdas as values', 'string formatting / methods mapped to the project runtime (split, join, replace, strip, upper, sort, reverse)', 'negative indices', 'with', 'generators'],
+		'constructs_exercised': ['int/bool operators: + - * % | ^ & << >> == != < > <= >= and or not unary - + ~ ternary, all association shapes'] + stmt_cov.get('constructs', []) + cont_cov.get('constructs', []) + obj_cov.get('constructs', []),
+		'constructs_not_covered': ['lambdas as values', 'class variables, isinstance, dict of objects, enum .value of a variable', 'string formatting / methods mapped to the project runtime (split, join, replace, strip, upper, sort, reverse)', 'negative indices', 'with', 'generators'],
 		**{k: v for k, v in stmt_cov.items() if k != 'constructs'},
 		**{k: v for k, v in cont_cov.items() if k != 'constructs'},
+		**{k: v for k, v in obj_cov.items() if k != 'constructs'},
 	}
 	assumptions = ['trusted base: clang++ -std=c++20, harness/cpp/prelude.h (standard headers, printf-style std::format, value printers)', 'agreement subset: |v| < 2^20, non-negative operands for % and bitwise operators, shift counts 0..8']
 	return finish(ctx, LEVEL, coverage, violations, assumptions)
